@@ -419,6 +419,7 @@ def run_check(prop_mod, tier, verif_seed, nruns=None, workers=None, wall_cap=Non
     wall_cap = wall_cap or cfg.get('wall_cap', 600)
     known = load_known()
     arms = dict((a.NAME, a) for a, _ in prop_mod.ARMS)
+    start_zero = True
 
     agg = {'runs': 0, 'ops': 0, 'stats': {}, 'probes': {}, 'per_arm': {}, 'harness_errors': [],
            'nontrivial': set(), 'interleavings': set(), 'states': set(), 'samples': []}
@@ -450,6 +451,18 @@ def run_check(prop_mod, tier, verif_seed, nruns=None, workers=None, wall_cap=Non
         for v in res['violations']:
             key = (arm, v['cls'], v['signature'])
             groups.setdefault(key, []).append((len(json.dumps(res.get('case'))), res.get('case'), v, res['i']))
+
+    # determinism sample: the first runs are executed again (other worker count); the event-log digests must agree
+    det_n = min(8, nruns)
+    det_bad = []
+    if start_zero and det_n and time.time() - t0 < wall_cap:
+        for res in run_pool(prop_mod, verif_seed, det_n, tier, 3, 120, only_arm=only_arm,
+                            run_timeout=cfg.get('run_timeout', 120.0)):
+            if 'digest' in res and res['i'] in digests and res['digest'] != digests[res['i']]:
+                det_bad.append(res['i'])
+        if det_bad:
+            agg['harness_errors'].append((det_bad[0], 'determinism sample diverged on runs %r' % det_bad))
+    agg['determinism_sample'] = {'runs': det_n, 'diverged': det_bad}
 
     # triage
     violations = []
@@ -538,6 +551,8 @@ def run_check(prop_mod, tier, verif_seed, nruns=None, workers=None, wall_cap=Non
             len(agg['harness_errors'])))
     if violations:
         code = 1
+    elif agg.get('determinism_sample', {}).get('diverged'):
+        code = 2
     elif agg['harness_errors'] and len(agg['harness_errors']) > max(2, agg['runs'] // 200):
         code = 2
     elif agg['runs'] == 0:
@@ -574,6 +589,7 @@ def write_evidence_file(prop_mod, tier, verif_seed, agg, violations, known_hits,
         'real_components': getattr(prop_mod, 'REAL', []),
         'stub_components': getattr(prop_mod, 'STUB', []),
         'known_findings_hit': sorted(set(k['id'] for k, _, _, _ in known_hits)),
+        'determinism_sample': agg.get('determinism_sample'),
         'harness_errors': len(agg['harness_errors']),
         'exhaustive': False,
     }
